@@ -55,6 +55,12 @@ def cases(tier):
         for shape in dd.SHAPES:
             for i in range(0, len(dd.lattice(shape, tier, dd.TC_WIDE)), 1 if tier == "thorough" else 4):
                 out.append({"shape": shape, "tc": "wide", "i": i, "t_dtype": dtype})
+    # split documents: weekdays and weekends follow two different lattice curves and the temperatures arrive in an
+    # order that is monotone in neither; every sub-model's rows must lie on that sub-model's curve
+    for shape in dd.SHAPES:
+        n = len(dd.lattice(shape, tier, dd.TC_WIDE))
+        for i in range(0, n, 1 if tier == "thorough" else 4):
+            out.append({"shape": shape, "tc": "wide", "i": i, "split": "wd_we"})
     # documents of the 2.0 format (from_2_0_dict): four model types x a small coefficient lattice
     out += [{"shape": "legacy2", "tc": "legacy2", "i": i} for i in range(len(legacy2_lattice()))]
     return out
@@ -212,6 +218,8 @@ def run_case(case):
         if case.get("key_order"):
             doc = reorder(doc, case["key_order"])
         m = em.DailyModel.from_dict(doc)
+    if case.get("split") == "wd_we":
+        return run_split_case(case, em, c, tc, T)
     Tcol = T
     if case.get("t_dtype") == "int64":
         T = np.arange(-60.0, 141.0)           # whole degrees
@@ -242,6 +250,50 @@ def run_case(case):
     return {"behaviour": beh, "violations": viol, "stats": {"points": int(len(T))}}
 
 
+def run_split_case(case, em, c, tc, T):
+    """Weekday sub-model = lattice point i, weekend sub-model = another point of the same shape; weekdays receive the
+    sweep in descending order, weekends in ascending order, interleaved by the calendar."""
+    lat = dd.lattice(case["shape"], case.get("tier", "quick"), tc)
+    c2 = lat[(case["i"] + 7) % len(lat)]
+    T2 = temps_for(c2, tc, curve.effective(c2, tc))
+    doc = dd.document({"wd-su_sh_wi": dd.submodel(c, tc), "we-su_sh_wi": dd.submodel(c2, tc)}, _settings())
+    m = em.DailyModel.from_dict(doc)
+    want = {"wd": list(T[::-1]), "we": list(T2)}
+    days = pd.date_range("2019-01-01", periods=int(3.6 * max(len(T), len(T2))) + 14, freq="D", tz="UTC")
+    temps, kind = [], []
+    for d in days:
+        k = "we" if d.dayofweek >= 5 else "wd"
+        temps.append(want[k].pop(0) if want[k] else 50.0)
+        kind.append(k)
+    if want["wd"] or want["we"]:
+        raise RuntimeError("calendar too short for the sweep")
+    temps = np.array(temps)
+    kind = np.array(kind)
+    r = em.DailyReportingData(pd.DataFrame({"temperature": temps}, index=days), is_electricity_data=True)
+    p = m.predict(r)
+    if not (p.index.equals(days) and np.array_equal(p["temperature"].to_numpy(float), temps)):
+        return {"rejected": "temperature not passed through unchanged by the data class"}
+    viol, nclause = [], 0
+    for k, cc in (("wd", c), ("we", c2)):
+        sel = np.flatnonzero(kind == k)
+        order = sel[np.argsort(temps[sel], kind="stable")]
+        Tk, uniq = np.unique(temps[order], return_index=True)
+        rows = order[uniq]
+        got = check_curve(cc, tc, Tk, p["predicted"].to_numpy(float)[rows], p["heating_load"].to_numpy(float)[rows],
+                          p["cooling_load"].to_numpy(float)[rows])
+        # the filler temperature occurs on many days: all of them must agree
+        fill = sel[temps[sel] == 50.0]
+        if len(set(p["predicted"].to_numpy(float)[fill].tolist())) > 1:
+            got.append(("same_temperature_different_prediction", f"{k}: days at 50.0F are predicted differently"))
+        nclause += len(got)
+        for clause, detail in got:
+            viol.append({"clause": clause, "key": {"shape": case["shape"], "split": "wd_we", "submodel": k},
+                         "detail": f"{detail} | coefficients {cc} tc {tc}"})
+    pr = p["predicted"].to_numpy(float)
+    beh = [case["shape"] + ":split", round(float(np.nanmin(pr)), 6), round(float(np.nanmax(pr)), 6), nclause]
+    return {"behaviour": beh, "violations": viol, "stats": {"points": int(len(temps))}}
+
+
 def run(tier, seed):
     cs = [dict(c, tier=tier) for c in cases(tier)]
     with poolmod.Pool() as pool:
@@ -251,7 +303,9 @@ def run(tier, seed):
         rule="one case = one model document (shape, lattice point, fitted range) evaluated by predict() on ~830 "
         "temperatures (-60..140F step 0.25 plus every stored/effective balance point, range limit and their float "
         "neighbours); plus every 4th (thorough: every) document with its JSON object keys sorted / reversed, and 2.0-format documents "
-        "(from_2_0_dict: four model types x coefficient lattice); behaviour = (shape, flat?, min, max of the curve, #clauses failed); "
+        "(from_2_0_dict: four model types x coefficient lattice), and two-component documents (weekday curve = the lattice point, "
+        "weekend curve = another one) evaluated on a calendar in which weekdays receive the sweep in descending and weekends in "
+        "ascending order, each component's rows held to its own curve; behaviour = (shape, flat?, min, max of the curve, #clauses failed); "
         "every case is non-trivial",
     )
     cov["temperature_points"] = ex.stats.get("points", 0)
